@@ -196,17 +196,20 @@ def lift(recipe, read_file):
             raise ValueError(mode)
     raw = src[a:b]
     text = raw
+    if recipe.get('peg_action'):
+        # `{? ... }` fallible PEG action: the body starts after the question mark
+        if text.startswith('?'):
+            text = text[1:]
     if recipe.get('deasync'):
         text = re.sub(r'\s*\.await\b', '', text)
+    if recipe.get('self_to'):
+        text = re.sub(r'\bself\b', recipe['self_to'], text)
     for rw in recipe.get('rewrites', []):
         pat, rep = rw[0], rw[1]
         mn = rw[2] if len(rw) > 2 else 1
         text, k = re.subn(pat, rep, text, flags=re.M)
         if k < mn:
             raise StaleRecipe("rewrite %r matched %d < %d times in lifted text of %s" % (pat, k, mn, recipe['file']))
-    if recipe.get('self_to'):
-        text = re.sub(r'\bself\b', recipe['self_to'], text)
-        text = re.sub(r'\bSelf\b', recipe.get('Self_to', 'Self'), text) if recipe.get('Self_to') else text
     return {
         'text': text,
         'file': recipe['file'],
